@@ -6,20 +6,57 @@ Step B compares /repo with the extracted Coq model (driver c10, Model/DriverC10.
   op 4    HTMLDependency(...) argument validation (result attributes / exception kind)
 Step C decides the property with Python oracles transcribed from the property text
 (document order, first-occurrence order, earliest numeric maximum, well-formedness) and
-with the extracted Coq specification functions (spec_get_dependencies, spec_error)."""
+with the extracted Coq specification functions (spec_get_dependencies, spec_error).
+
+ENTRY POINTS that reach the behaviour the property describes (each is exercised below with
+default and non-default arguments and judged by the property's own oracle: spec_deps):
+  collection / resolution
+    TagList.get_dependencies(*, dedup=True|False)          Tag.get_dependencies(dedup) (keyword and positional)
+    TagList.render()['dependencies']                        Tag.render()['dependencies']
+    HTMLDocument(*children | TagList | one tag, **attrs: lang=, class_=, style=)
+        .render(lib_prefix='lib'|None|'a/b', include_version=True|False)['dependencies']
+        .append(*children), copy.copy(document), a lone <html> / <body> / other top-level tag
+        with dependency objects before / after / inside it
+    Tag.save_html / TagList.save_html(file, libdir='lib'|None|'x/y', include_version=) and
+        HTMLDocument.save_html(file, libdir, include_version): the dependencies written to the file
+    str() / repr() / _repr_html_() with htmltools.html_dependency_render_mode = 'json' (the
+        serialised dependencies follow the markup) and that text given to HTMLTextDocument(...)
+        .render(lib_prefix=, include_version=)['dependencies'];  HTMLTextDocument(template, deps=,
+        deps_replace_pattern=<a pattern full of regex metacharacters>)
+  ways a tree comes into being (the reported dependencies depend on document order only)
+    Tag(...) / TagList(...) / tags.<name>(...) constructors (children, nested lists / tuples / TagLists,
+    attribute dicts and other tags' .attrs objects between the children), append (one / many),
+    extend, insert (front / middle), TagList + / reflected + / +=, the with-block route
+    (sys.displayhook inside `with tag:`), copy.copy, copy.deepcopy, tagify(), one Tag object placed
+    in two parents, tagifiable objects (also ones that are self-rendering too), JSX components
+  construction / validation
+    HTMLDependency(name, version: str | Version, source=, script=, stylesheet=, meta=) with None /
+    dict / dict subclass / list / tuple / str / other; items dict, dict subclass or one of many
+    kinds of non-dict objects (also ones dict() would convert and that carry the required keys)
+SIZES: children / dependencies per level / rows / names / versions of one name / version
+components / items per list / keys per dict just below, at and above 8, 16, 32, 64, 128, 256 and
+300; nesting depth of tags and of list / tuple / TagList wrappers up to 70; names and version
+strings of > 300, > 5000 and > 70000 characters that differ only in their last character."""
 from __future__ import annotations
 
+import collections
+import copy as _copy
 import glob
 import itertools
 import json
 import os
+import re
+import shutil
+import sys
+import tempfile
+import types
 
 from ..common import Ctx, S, VERIF, run_model
 from .. import trees
 from ..trees import safe_call
 
 import htmltools
-from htmltools import HTML, HTMLDependency, Tag, TagList
+from htmltools import HTML, HTMLDependency, HTMLDocument, HTMLTextDocument, Tag, TagList
 from packaging.version import Version
 
 VERSIONS = ["1", "1.0", "1.9", "1.10", "1.10.0", "01.2", "2", "0.0.1"]
@@ -29,6 +66,18 @@ NAMES = ["a", "b", "jq", "A", "a "]
 # ------------------------------------------------------------------------------------
 # specification side (written from the property text, not from the code)
 # ------------------------------------------------------------------------------------
+def xs(v) -> str:
+    """A name / version of a case is a str, or - so that very long ones stay readable in a replay
+    file - the compact form ['L', unit, count, tail] meaning unit * count + tail."""
+    if isinstance(v, (list, tuple)):
+        return v[1] * v[2] + v[3]
+    return v
+
+
+def norm_deps(deps: list) -> list:
+    return [(xs(n), xs(v), c) for n, v, c in deps]
+
+
 def release(s: str) -> list[int]:
     """a dotted release string as its numbers"""
     return [int(x) for x in s.split(".")]
@@ -45,18 +94,22 @@ def spec_resolve(seq: list[int], deps: list) -> list[int]:
     """seq: dependency indices in document order.  One per name, names by first occurrence,
     each represented by the earliest occurrence of maximal version."""
     names: list[str] = []
+    occ: dict[str, list[int]] = {}
     for i in seq:
-        if deps[i][0] not in names:
+        if deps[i][0] not in occ:
             names.append(deps[i][0])
+            occ[deps[i][0]] = []
+        occ[deps[i][0]].append(i)
+    rel = {i: release(deps[i][1]) for i in set(seq)}
     out = []
     for n in names:
-        cands = [i for i in seq if deps[i][0] == n]
-        best = cands[0]
+        cands = occ[n]
+        # a maximal version: one that no candidate exceeds; the earliest occurrence of such a one
+        top = cands[0]
         for i in cands:
-            if all(spec_vcmp(release(deps[i][1]), release(deps[j][1])) >= 0 for j in cands):
-                best = i
-                break
-        out.append(best)
+            if spec_vcmp(rel[i], rel[top]) > 0:
+                top = i
+        out.append(next(i for i in cands if spec_vcmp(rel[i], rel[top]) >= 0))
     return out
 
 
@@ -80,7 +133,7 @@ def spec_deps(case: dict) -> list[int]:
     render = case["mode"].startswith("render")
     seq = doc_order(case["forest"], into_custom=render)
     if case["dedup"] or render:
-        return spec_resolve(seq, case["deps"])
+        return spec_resolve(seq, norm_deps(case["deps"]))
     return seq
 
 
@@ -92,15 +145,29 @@ def spec_deps(case: dict) -> list[int]:
 #   ('C', exp, as_list)  tagifiable non-Tag object (only render() looks inside)
 # ------------------------------------------------------------------------------------
 def build_deps(deps: list) -> list:
+    """the dependency objects of a case.  The version is given as a str or (every third object) as a
+    packaging Version; the script file name carries the object's index, so that the object can be
+    recognised in serialised forms too (<script src=...> in a document head, JSON)"""
     objs = []
-    for i, (name, ver, content) in enumerate(deps):
-        d = HTMLDependency(name, ver, script={"src": f"c{content}.js"})
+    for i, (name, ver, content) in enumerate(norm_deps(deps)):
+        if name.startswith("@hc:"):
+            # head_content(x): a dependency whose name is derived from the markup of x (equal markup,
+            # equal name; the version is always 0.0), so the "name" of the case stands for that markup
+            d = htmltools.head_content(Tag("title", name[4:]))
+        else:
+            d = HTMLDependency(name, Version(ver) if i % 3 == 2 else ver, script={"src": f"c{content}_{i}.js"})
         d._verif_id = i  # survives copy(), which tagify() applies to metadata nodes
         objs.append(d)
     return objs
 
 
-def build(d, objs):
+SRC_RE = re.compile(r"c\d+_(\d+)\.js$")
+
+
+def build(d, objs, memo=None):
+    """live objects of a forest node.  memo (a dict): a Tag whose description is equal to one built
+    earlier in the same forest is (every other time) that very object again: one object in two
+    parents, which every read-only operation must treat like two equal objects"""
     k = d[0]
     if k == "D":
         return objs[d[1]]
@@ -113,18 +180,36 @@ def build(d, objs):
     if k == "N":
         return None
     if k == "G":
-        return Tag(d[1], *[build(x, objs) for x in d[3]], _add_ws=d[2])
+        hit = None
+        if memo is not None:
+            key = json.dumps(d)
+            hit = memo.get(key)
+            if hit is not None:
+                hit[1] += 1
+                if hit[1] % 2 == 0:
+                    return hit[0]
+        o = Tag(d[1], *[build(x, objs, memo) for x in d[3]], _add_ws=d[2])
+        if memo is not None and hit is None:
+            memo[key] = [o, 1]
+        return o
     if k == "L":
-        kb = [build(x, objs) for x in d[2]]
+        kb = [build(x, objs, memo) for x in d[2]]
         return {"list": list, "tuple": tuple}.get(d[1], lambda l: TagList(*l))(kb)
     if k == "C":
-        return trees.CustomObj([build(x, objs) for x in d[1]], d[2])
+        return mk_custom([build(x, objs, memo) for x in d[1]], d)
     raise ValueError(d)
+
+
+def mk_custom(kb: list, d):
+    """a tagifiable non-Tag object; every other shape is ALSO self-rendering (_repr_html_)"""
+    if (len(kb) + (1 if d[2] else 0)) % 2 == 0:
+        return trees.CustomReprObj(kb, d[2], "<i>own markup</i>")
+    return trees.CustomObj(kb, d[2])
 
 
 def dep_sx(i: int, deps: list) -> list:
     name, ver, _ = deps[i]
-    return [S(name), release(ver), i]
+    return [S(xs(name)), release(xs(ver)), i]
 
 
 def kids_sx(kids: list, deps: list, expand: bool) -> list:
@@ -165,34 +250,67 @@ def case_sx(case: dict) -> list:
     return [1, dedup, kids]
 
 
+def ids_of(lst, objs, by_identity: bool):
+    """-> (indices of the reported objects, each is the placed object itself?)"""
+    ids = [getattr(x, "_verif_id", -1) for x in lst]
+    same = True
+    if by_identity:
+        same = all(0 <= i < len(objs) and x is objs[i] for x, i in zip(lst, ids))
+    return ids, same
+
+
+def clobber(lst) -> None:
+    """what is returned belongs to the caller, who may do with it as he likes"""
+    try:
+        if isinstance(lst, list):
+            lst.reverse()
+            lst.append(None)
+            del lst[:1]
+    except Exception:
+        pass
+
+
 def run_impl(case: dict):
-    """-> (canonical result, identity_ok)"""
+    """-> (canonical result, identity_ok, afterwards)
+    afterwards: the same question asked again after the caller has modified the list he got, and
+    the plain collection (dedup off) of the same objects after that: both are functions of the
+    tree alone, so state kept between calls, a result aliased to internals or a tree modified by
+    a read-only call shows there"""
     objs = build_deps(case["deps"])
     mode = case["mode"]
-    built = [build(x, objs) for x in case["forest"]]
-    if mode == "list":
-        r = safe_call(lambda: TagList(*built).get_dependencies(dedup=case["dedup"]))
-    elif mode == "tag":
-        r = safe_call(lambda: Tag("div", *built).get_dependencies(dedup=case["dedup"]))
-    elif mode == "render_list":
-        r = safe_call(lambda: TagList(*built).render()["dependencies"])
-    elif mode == "render_tag":
-        r = safe_call(lambda: Tag("div", *built).render()["dependencies"])
+    memo: dict = {}
+    built = [build(x, objs, memo) for x in case["forest"]]
+    x = safe_call(lambda: TagList(*built) if mode.endswith("list") else Tag("div", *built))
+    if x[0] != "ok":
+        return x, True, None
+    x = x[1]
+    if mode in ("list", "tag"):
+        def call():
+            return x.get_dependencies(dedup=case["dedup"])
+    elif mode in ("render_list", "render_tag"):
+        def call():
+            return x.render()["dependencies"]
     else:
         raise ValueError(mode)
+    r = safe_call(call)
     if r[0] != "ok":
-        return r, True
-    ids = [getattr(x, "_verif_id", -1) for x in r[1]]
-    same = True
-    if not mode.startswith("render"):
-        same = all(0 <= i < len(objs) and x is objs[i] for x, i in zip(r[1], ids))
-    return ("ok", ids), same
+        return r, True, None
+    by_id = not mode.startswith("render")
+    ids, same = ids_of(r[1], objs, by_id)
+    clobber(r[1])
+    r2 = safe_call(call)
+    again = ("ok", ids_of(r2[1], objs, by_id)[0]) if r2[0] == "ok" else r2
+    r3 = safe_call(lambda: x.get_dependencies(dedup=False))
+    plain = ("ok", ids_of(r3[1], objs, True)[0]) if r3[0] == "ok" else r3
+    return ("ok", ids), same, {"again": again, "plain": plain}
 
 
 def rand_node(rng, depth: int, nd: int, custom: bool):
     r = rng.random()
     if depth > 0 and r < 0.30:
         name, ws = trees.rand_name(rng, "bbbiivsc")
+        if rng.random() < 0.08:
+            name, ws = rng.choice(["html", "body", "head"]), True
         return ("G", name, ws, rand_kids(rng, depth - 1, nd, custom))
     if depth > 0 and r < 0.38:
         return ("L", rng.choice(["list", "tuple", "taglist"]), rand_kids(rng, depth - 1, nd, custom))
@@ -213,7 +331,133 @@ def rand_node(rng, depth: int, nd: int, custom: bool):
 
 
 def rand_kids(rng, depth: int, nd: int, custom: bool) -> list:
-    return [rand_node(rng, depth, nd, custom) for _ in range(rng.choice([0, 1, 1, 2, 2, 3, 4]))]
+    kids = [rand_node(rng, depth, nd, custom) for _ in range(rng.choice([0, 1, 1, 2, 2, 3, 4]))]
+    if depth > 0 and kids and rng.random() < 0.06:
+        # an equal sub-tree at a second place (build() may make the two one object)
+        tags_ = [k for k in kids if k[0] == "G"]
+        if tags_:
+            kids.insert(rng.randrange(len(kids) + 1), rng.choice(tags_))
+    return kids
+
+
+# ------------------------------------------------------------------------------------
+# SIZE AND DEPTH: few, big forests.  Whatever can be counted is taken just below, at and above the
+# powers of two from 8 to 256 (and 300); what decides the answer sits in the tail.
+# ------------------------------------------------------------------------------------
+SIZES = [7, 8, 9, 15, 16, 17, 31, 32, 33, 63, 64, 65, 66, 127, 128, 129, 255, 256, 257, 300]
+DEPTHS = [7, 8, 9, 15, 16, 17, 31, 32, 33, 63, 64, 65, 70]
+
+
+def big_pool(rng, kind: str, n: int) -> tuple[list, list]:
+    """-> (deps, sequence of n placements); the last placements decide something:
+    a new name, the strict maximum of an old name, or a later equal of the maximum (must lose)"""
+    if kind == "family":
+        names = rng.sample(["w", "x", "jq"], rng.choice([1, 2, 3]))
+        deps = [(rng.choice(names), rng.choice(VERSIONS) if rng.random() < 0.6 else rand_version(rng), rng.choice([0, 1]))
+                for _ in range(rng.choice([4, 6, 10]))]
+        seq = [rng.randrange(len(deps)) for _ in range(n - 2)]
+    elif kind == "names":
+        deps = [(f"n{i}", rng.choice(VERSIONS), 0) for i in range(n - 2)]
+        seq = list(range(n - 2))
+    elif kind == "versions":
+        vs = [f"{rng.choice([0, 1, 1, 2])}.{i}" for i in range(n - 2)]
+        rng.shuffle(vs)
+        deps = [("w", v, 0) for v in vs]
+        seq = list(range(n - 2))
+    elif kind == "components":
+        # versions with about n components that differ in the last one only / by trailing zeros
+        deps = [("w", ["L", "1.", n - 1, t], c) for t, c in (("7", 0), ("8", 0), ("8.0", 1), ("08", 2), ("6", 0))]
+        deps.append(("w", ["L", "1.", n - 2, "9"], 0))
+        seq = [rng.randrange(len(deps)) for _ in range(min(n, 12))]
+        return deps, seq
+    else:
+        raise ValueError(kind)
+    # the tail
+    first = deps[seq[0]]
+    r = rng.random()
+    if r < 0.4:
+        deps.append((first[0], "999.1", 5))            # strict maximum of the first name: last
+        deps.append(("zz-last", "1", 0))                # a new name: very last
+    elif r < 0.7:
+        deps.append((first[0], "999.1", 5))
+        deps.append((first[0], "999.1.0", 6))           # equal to the maximum, later: loses
+    else:
+        deps.append(("zz-last", "1.0", 0))
+        deps.append(("zz-last", "1", 1))
+    return deps, seq + [len(deps) - 2, len(deps) - 1]
+
+
+def shape_rows(seq: list, cell_depth: int = 1) -> list:
+    rows = []
+    for j, i in enumerate(seq):
+        cell = [("D", i), ("T", "c")]
+        for _ in range(cell_depth):
+            cell = [("G", "span", False, cell)]
+        rows.append(("G", "tr", True, [("G", "td", True, [("T", f"r{j % 3}")]), ("G", "td", True, cell)]))
+    return rows
+
+
+def shape_chain(rng, seq: list, depth: int, wrappers: bool, custom_inner: bool = False) -> list:
+    """a chain of `depth` nested tags (or list / tuple / TagList wrappers); the dependencies are
+    spread over the levels, before and after the nested child; the two deciding ones (the end of seq)
+    sit innermost, at full depth"""
+    seq, deciding = seq[:-2], seq[-2:]
+    cuts = sorted(rng.randrange(len(seq) + 1) for _ in range(2 * depth))
+    parts = [seq[a:b] for a, b in zip([0] + cuts, cuts + [len(seq)])]      # 2*depth + 1 parts
+    before, inner, after = parts[:depth], parts[depth] + deciding, parts[depth + 1:]
+    node = [("D", i) for i in inner]
+    if custom_inner:
+        # ... inside a tagifiable object at the bottom: only the rendering routes look into it
+        node = [("D", i) for i in inner[:-2]] + [("C", [("D", i) for i in deciding], True)]
+    for lvl in range(depth - 1, -1, -1):
+        kids = [("D", i) for i in before[lvl]] + node + [("D", i) for i in after[depth - 1 - lvl]]
+        if wrappers:
+            node = [("L", ["list", "tuple", "taglist"][lvl % 3], kids)]
+        else:
+            node = [("G", ["div", "span", "section", "b"][lvl % 4], lvl % 4 in (0, 2), kids)]
+    return node
+
+
+def big_forests(rng, quick: bool) -> list[tuple[list, list, str]]:
+    """-> [(deps, forest, label)]"""
+    out = []
+    for n in SIZES:
+        for shape in (["flat", "rows", rng.choice(["split", "groups"])] if quick else ["flat", "rows", "split", "groups"]):
+            kind = rng.choice(["family", "family", "names", "versions"] if n > 9 else ["family"])
+            deps, seq = big_pool(rng, kind, n)
+            if shape == "flat":
+                forest = [("D", i) for i in seq]
+            elif shape == "rows":
+                forest = shape_rows(seq, rng.choice([0, 1, 2]))
+                if rng.random() < 0.5:
+                    forest = [("G", "table", True, [("G", "tbody", True, forest)])]
+            elif shape == "split":
+                rows = shape_rows(seq)
+                h = len(rows) // 2
+                forest = [("G", "div", True, [("L", "taglist", rows[:h]), ("G", "table", True, rows[h:])])]
+            else:
+                # sibling tags of g dependencies each
+                g = rng.choice([2, 3, 8, 9])
+                forest = [("G", "ul", True, [("D", i) for i in seq[a:a + g]]) for a in range(0, len(seq), g)]
+            out.append((deps, forest, f"{shape}/{kind}/{n}"))
+        if n >= 15:
+            deps, seq = big_pool(rng, "components", n)
+            out.append((deps, [("D", i) for i in seq], f"flat/components/{n}"))
+    for d in DEPTHS:
+        for kind in ("chain", "chain-custom", "wrappers"):
+            deps, seq = big_pool(rng, "family", rng.choice([d, 2 * d, 3 * d + 1]))
+            out.append((deps, shape_chain(rng, seq, d, kind == "wrappers", kind == "chain-custom"), f"{kind}/{d}"))
+    # long names (and versions) that differ in their last character only
+    for ln in (300, 5000, 70000):
+        half = ln // 2 + 1
+        deps = [(["L", "ab", half, "x"], "1.2", 0), (["L", "ab", half, "y"], "1.10", 0), (["L", "ab", half, "x"], "1.10", 1),
+                (["L", "ab", half, "y"], "1.9", 2), (["L", "ab", half + 1, "x"], "3", 0), (["L", "ab", half, "x"], "1.10.0", 2),
+                ("w", ["L", "1.", half, "1"], 0), ("w", ["L", "1.", half, "2"], 1), ("w", ["L", "1.", half, "2.0"], 2)]
+        seq = [0, 1, 6, 2, 3, 7, 4, 5, 8, 0]
+        if ln > 5000:
+            seq = [0, 1, 2, 3, 7, 5, 8]
+        out.append((deps, [("D", i) for i in seq[:3]] + [("G", "div", True, [("D", i) for i in seq[3:]])], f"long/{ln}"))
+    return out
 
 
 def rand_version(rng) -> str:
@@ -231,19 +475,27 @@ def rand_version(rng) -> str:
     return ".".join(parts)
 
 
-def rand_deps(rng, anyver: bool = False) -> list:
+def rand_deps(rng, anyver: bool = False, hc: bool = False) -> list:
     nd = rng.choice([1, 2, 3, 3, 4, 5, 6, 8])
     names = rng.sample(NAMES, rng.choice([1, 1, 2, 2, 3]))
     out = []
     for _ in range(nd):
         ver = rand_version(rng) if anyver and rng.random() < 0.6 else rng.choice(VERSIONS)
         out.append((rng.choice(names), ver, rng.choice([0, 0, 1, 2])))
+    if hc and rng.random() < 0.2:
+        # head_content() objects among them (the same markup twice: one name)
+        for _ in range(rng.choice([1, 2, 3])):
+            out[rng.randrange(len(out))] = ("@hc:" + rng.choice(["t1", "t2"]), "0.0", 0)
     return out
+
+
+def has_hc(deps: list) -> bool:
+    return any(isinstance(d[0], str) and d[0].startswith("@hc:") for d in deps)
 
 
 def collisions(case: dict) -> bool:
     seq = doc_order(case["forest"], into_custom=case["mode"].startswith("render"))
-    names = [case["deps"][i][0] for i in seq]
+    names = [json.dumps(case["deps"][i][0]) for i in seq]
     return len(set(names)) < len(names)
 
 
@@ -273,7 +525,7 @@ def check_tree_cases(ctx: Ctx, name: str, cases: list[dict], kind: str) -> None:
     disagreements, spec_mismatch, ident_bad = [], [], []
     for c, m in zip(cases, model):
         ctx.count(c, collisions(c), kind + ":" + c["mode"] + ("" if c["dedup"] else ":nodedup"))
-        iv, same = run_impl(c)
+        iv, same, after = run_impl(c)
         want = ("ok", spec_deps(c))
         if iv != want:
             ctx.violation("reported dependencies are not the document-order collection " +
@@ -283,6 +535,16 @@ def check_tree_cases(ctx: Ctx, name: str, cases: list[dict], kind: str) -> None:
         elif not same:
             ctx.violation("get_dependencies does not return the placed objects themselves",
                           c, {"impl_output": iv, "expected": "the same objects"})
+        elif after is not None:
+            plain = ("ok", doc_order(c["forest"], into_custom=False))
+            if after["again"] != want:
+                ctx.violation("asking for the dependencies of the same tree a second time (after the caller modified "
+                              "the list returned the first time) gives another answer", c,
+                              {"impl_output": after["again"], "expected": want})
+            elif after["plain"] != plain:
+                ctx.violation("after the dependencies of a tree were reported, get_dependencies(dedup=False) on the "
+                              "same tree is not its document-order collection (nothing dropped or reordered)", c,
+                              {"impl_output": after["plain"], "expected": plain})
         if isinstance(m, tuple):
             mv, sv = ("!", m[1]), None
         elif c["mode"].endswith("tag"):
@@ -304,6 +566,288 @@ def check_tree_cases(ctx: Ctx, name: str, cases: list[dict], kind: str) -> None:
 
 
 # ------------------------------------------------------------------------------------
+# ENTRY POINTS: the same forests, assembled and observed through every public route.
+#   route = {"container": "list" | "tag" | "doc",  "name": tag name (container tag),
+#            "build": how the container gets its children, "split": where a two-step build splits,
+#            "post": None | "copy" | "deepcopy" | "tagify",
+#            "observe": "get" | "render" | "doc" | "save" | "json" | "textdoc" | "textdoc_deps",
+#            "dedup": bool (observe get), "how": variant of the observation, "lib": lib_prefix / libdir,
+#            "incver": include_version, "kw": document attributes}
+# Oracle only (spec_route): what is reported is a function of the document order of the
+# dependency objects, whatever the route.
+# ------------------------------------------------------------------------------------
+BUILDS_LIST = ["ctor", "nested", "append", "append_many", "extend", "insert_front", "insert_mid", "add", "radd", "iadd"]
+BUILDS_TAG = BUILDS_LIST + ["with", "tagfn", "attrs_between"]
+BUILDS_DOC = ["ctor", "taglist", "append", "copy"]
+ODD_PATTERN = "(.*)[x]+$^\\d{2}|<!-- deps? -->"
+
+
+def rand_doc_forest(rng, nd: int) -> list:
+    """top-level children of a document: mostly ONE visible tag - <html> (with or without its own
+    <head> / <body>), <body> or something else - with dependency objects (bare, in lists, None
+    between them) before and after it, and inside it"""
+    def deps_run():
+        out = []
+        for _ in range(rng.choice([0, 0, 1, 1, 2, 3])):
+            r = rng.random()
+            if r < 0.7 and nd:
+                out.append(("D", rng.randrange(nd)))
+            elif r < 0.85 and nd:
+                out.append(("L", rng.choice(["list", "tuple", "taglist"]), [("D", rng.randrange(nd)) for _ in range(rng.choice([1, 2]))]))
+            else:
+                out.append(("N",))
+        return out
+
+    def top(name):
+        if name == "html" and rng.random() < 0.7:
+            kids = deps_run()
+            if rng.random() < 0.7:
+                kids.append(("G", "head", True, rand_kids(rng, 1, nd, False)))
+            kids += deps_run()
+            if rng.random() < 0.8:
+                kids.append(("G", "body", True, rand_kids(rng, 2, nd, True)))
+            kids += deps_run() if rng.random() < 0.3 else []
+            return ("G", "html", True, kids)
+        return ("G", name, name != "span", rand_kids(rng, rng.choice([1, 2, 2]), nd, True))
+
+    forest = deps_run()
+    r = rng.random()
+    nvis = 1 if r < 0.75 else 2 if r < 0.93 else 0
+    for _ in range(nvis):
+        if rng.random() < 0.15:
+            forest.append(rng.choice([("T", "text"), ("H", "<hr>"), ("C", [("G", "body", True, rand_kids(rng, 1, nd, False))], False)]))
+        else:
+            forest.append(top(rng.choice(["html", "html", "body", "body", "div", "head", "span"])))
+        forest += deps_run()
+    return forest
+
+
+def rand_route(rng, container: str | None = None) -> dict:
+    container = container or rng.choice(["list", "tag", "tag", "doc"])
+    route = {"container": container, "name": rng.choice(["div", "div", "span", "body", "html", "table", "head"]),
+             "split": rng.choice([0, 1, 1, 2, 3]), "post": rng.choice([None, None, None, "copy", "deepcopy", "tagify"]),
+             "dedup": rng.random() < 0.5, "how": rng.randrange(3), "lib": rng.choice(["lib", "lib", None, "a/b", ""]),
+             "incver": rng.random() < 0.6,
+             "kw": rng.choice([{}, {}, {"lang": "en"}, {"class_": "c1 c2", "style": "margin:0"}, {"lang": "fr", "data_x": "1"}])}
+    if container == "doc":
+        route["build"] = rng.choice(BUILDS_DOC)
+        route["post"] = None
+        route["observe"] = rng.choice(["doc", "doc", "doc", "save"])
+    else:
+        route["build"] = rng.choice(BUILDS_LIST if container == "list" else BUILDS_TAG)
+        route["observe"] = rng.choice(["get", "get", "render", "doc", "doc", "save", "json", "textdoc", "textdoc_deps"])
+    return route
+
+
+class _Sink:
+    """stands in for the interpreter's display hook while a with-block route runs"""
+
+    def __call__(self, value):
+        return None
+
+
+def assemble(route: dict, kids: list):
+    """the container with the children kids (in this order), built the way the route says"""
+    b, cont, name = route["build"], route["container"], route["name"]
+    j = min(route["split"], len(kids))
+    if cont == "doc":
+        kw = route["kw"]
+        if b == "ctor":
+            return HTMLDocument(*kids, **kw)
+        if b == "taglist":
+            return HTMLDocument(TagList(*kids), **kw)
+        if b == "append":
+            doc = HTMLDocument(*kids[:j], **kw)
+            for k in kids[j:j + 1]:
+                doc.append(k)
+            if kids[j + 1:]:
+                doc.append(*kids[j + 1:])
+            return doc
+        if b == "copy":
+            doc = HTMLDocument(*kids[:j], **kw)
+            cp = _copy.copy(doc)
+            if kids[j:]:
+                cp.append(*kids[j:])
+            return cp
+        raise ValueError(b)
+
+    def new(*a):
+        return Tag(name, *a) if cont == "tag" else TagList(*a)
+
+    if b == "ctor":
+        return new(*kids)
+    if b == "tagfn":
+        return (getattr(htmltools, name, None) or getattr(htmltools.tags, name))(*kids)     # top-level re-export / tags.<name>
+    if b == "attrs_between":
+        other = Tag("p", {"class": "k"}, id="other")
+        mixed = list(kids)
+        mixed.insert(j, {"title": "t"})
+        mixed.insert(min(j + 2, len(mixed)), other.attrs)        # another tag's attribute object
+        return Tag(name, *mixed, class_="own")
+    if b == "nested":
+        return new(kids[:j], tuple(kids[j:]))
+    if b == "append":
+        x = new()
+        for k in kids:
+            x.append(k)
+        return x
+    if b == "append_many":
+        x = new(*kids[:j])
+        if kids[j:]:
+            x.append(*kids[j:])
+        return x
+    if b == "extend":
+        x = new(*kids[:j])
+        x.extend(kids[j:])
+        x.extend(())
+        return x
+    if b == "insert_front":
+        x = new(*kids[j:])
+        for k in reversed(kids[:j]):
+            x.insert(0, k)
+        return x
+    if b == "insert_mid":
+        if not kids:
+            return new()
+        j = min(j, len(kids) - 1)
+        x = new(*kids[:j], *kids[j + 1:])
+        x.insert(len(TagList(*kids[:j])), kids[j])
+        return x
+    if b in ("add", "radd", "iadd"):
+        if b == "add":
+            tl = TagList(*kids[:j]) + kids[j:]
+        elif b == "radd":
+            tl = kids[:j] + TagList(*kids[j:])
+        else:
+            tl = TagList(*kids[:j])
+            tl += kids[j:]
+        return Tag(name, tl) if cont == "tag" else tl
+    if b == "with":
+        t = Tag(name)
+        old = sys.displayhook
+        sys.displayhook = _Sink()
+        try:
+            with t:
+                for k in kids:
+                    sys.displayhook(k)
+        finally:
+            sys.displayhook = old
+        return t
+    raise ValueError(b)
+
+
+def ids_from_srcs(srcs: list[str]) -> list[int]:
+    out = []
+    for s_ in srcs:
+        m = SRC_RE.search(s_)
+        out.append(int(m.group(1)) if m else -1)
+    return out
+
+
+def ids_from_objs(lst) -> list[int]:
+    """index of each reported dependency: the marker attribute, or (reconstituted objects) the index
+    carried by the script file name"""
+    out = []
+    for d in lst:
+        i = getattr(d, "_verif_id", None)
+        if i is None:
+            sc = getattr(d, "script", None) or [{}]
+            i = ids_from_srcs([str(sc[0].get("src", ""))])[0]
+        out.append(i)
+    return out
+
+
+JSON_DEP_RE = re.compile(r'<script type="application/json" data-html-dependency="">(.*?)</script>', re.S)
+HEAD_SRC_RE = re.compile(r'<script src="([^"]*)"')
+
+
+def in_json_mode(f):
+    old = htmltools.html_dependency_render_mode
+    htmltools.html_dependency_render_mode = "json"
+    try:
+        return f()
+    finally:
+        htmltools.html_dependency_render_mode = old
+
+
+def observe(route: dict, x, tmp: str) -> list[int]:
+    """the dependencies reported for x through the route's observation, as object indices"""
+    o, how = route["observe"], route["how"]
+    post = route["post"]
+    if post == "copy":
+        x = _copy.copy(x)
+    elif post == "deepcopy":
+        x = _copy.deepcopy(x)
+    elif post == "tagify":
+        x = x.tagify()
+    is_doc = isinstance(x, HTMLDocument)
+    if o == "get":
+        if route["dedup"] and how == 0:
+            return ids_from_objs(x.get_dependencies())
+        if isinstance(x, Tag) and how == 1:
+            return ids_from_objs(x.get_dependencies(route["dedup"]))
+        return ids_from_objs(x.get_dependencies(dedup=route["dedup"]))
+    if o == "render":
+        return ids_from_objs(x.render()["dependencies"])
+    if o == "doc":
+        doc = x if is_doc else HTMLDocument(x, **route["kw"]) if how else HTMLDocument(TagList(x), **route["kw"])
+        if route["lib"] == "lib" and route["incver"]:
+            return ids_from_objs(doc.render()["dependencies"])
+        return ids_from_objs(doc.render(lib_prefix=route["lib"], include_version=route["incver"])["dependencies"])
+    if o == "save":
+        d = tempfile.mkdtemp(dir=tmp)
+        path = os.path.join(d, "page.html")
+        kw = {} if (route["lib"] == "lib" and route["incver"]) else {"libdir": route["lib"], "include_version": route["incver"]}
+        got = x.save_html(path, **kw)
+        with open(got, encoding="utf-8") as f:
+            text = f.read()
+        return ids_from_srcs(HEAD_SRC_RE.findall(text))
+    if o in ("json", "textdoc"):
+        text = in_json_mode(lambda: [str, repr, lambda y: y._repr_html_()][how](x))
+        if o == "json":
+            return ids_from_srcs([json.loads(t)["script"][0]["src"] for t in JSON_DEP_RE.findall(text)])
+        td = HTMLTextDocument("<html><head><!-- deps --></head><body>" + text + "</body></html>", deps_replace_pattern="<!-- deps -->")
+        return ids_from_objs(td.render(lib_prefix=route["lib"], include_version=route["incver"])["dependencies"])
+    if o == "textdoc_deps":
+        deps = x.get_dependencies()
+        td = HTMLTextDocument(f"<html><head>{ODD_PATTERN}</head><body>{ODD_PATTERN}</body></html>", deps=list(deps),
+                              deps_replace_pattern=ODD_PATTERN)
+        return ids_from_objs(td.render(lib_prefix=route["lib"])["dependencies"])
+    raise ValueError(o)
+
+
+def spec_route(case: dict) -> list[int]:
+    route = case["route"]
+    o = route["observe"]
+    expands = route["post"] == "tagify" or o in ("render", "doc", "save", "json", "textdoc")
+    seq = doc_order(case["forest"], into_custom=expands)
+    if o == "get" and not route["dedup"]:
+        return seq
+    return spec_resolve(seq, norm_deps(case["deps"]))
+
+
+def check_routes(ctx: Ctx, cases: list[dict], kind: str) -> None:
+    tmp = tempfile.mkdtemp(prefix="verif-c10-")
+    try:
+        for c in cases:
+            route = c["route"]
+            ctx.count(c, True, f"{kind}:{route['container']}/{route['build']}/{route['post']}/{route['observe']}")
+            objs = build_deps(c["deps"])
+            memo: dict = {}
+            kids = [build(k, objs, memo) for k in c["forest"]]
+            want = ("ok", spec_route(c))
+            got = safe_call(lambda: observe(route, assemble(route, kids), tmp))
+            if got != want:
+                what = ("dedup disabled: nothing dropped or reordered" if route["observe"] == "get" and not route["dedup"] else
+                        "resolved to the earliest highest version per name in first-occurrence order")
+                ctx.violation(f"the dependencies reported through {route['observe']} for a tree built by {route['build']}"
+                              f"{' then ' + route['post'] if route['post'] else ''} are not its document-order collection ({what})",
+                              c, {"impl_output": got, "expected": want})
+    finally:
+        shutil.rmtree(tmp, ignore_errors=True)
+
+
+# ------------------------------------------------------------------------------------
 # constructor arguments
 #   item: ('d', [keys]) | ('nd', which)
 #   arg : ('none',) | ('dict', [keys]) | ('iter', 'list'|'tuple', [items]) | ('str', s) | ('nonit',)
@@ -311,6 +855,60 @@ def check_tree_cases(ctx: Ctx, name: str, cases: list[dict], kind: str) -> None:
 # ------------------------------------------------------------------------------------
 EXTRA_KEYS = ["src", "href", "name", "content", "rel", "x", "subdir", "package"]
 NONDICT = {"str": "src", "int": 7, "none": None, "list": ["src", "href"], "pair": (("src", "a"),)}
+
+
+class KeysAndGetitem:
+    """not a dict, not a Mapping subclass: just keys() and __getitem__ (what dict() accepts)"""
+
+    def __init__(self, d):
+        self._d = d
+
+    def keys(self):
+        return self._d.keys()
+
+    def __getitem__(self, k):
+        return self._d[k]
+
+    def __contains__(self, k):
+        return k in self._d
+
+    def __iter__(self):
+        return iter(self._d)
+
+    def __len__(self):
+        return len(self._d)
+
+
+Pair = collections.namedtuple("Pair", ["src", "href"])
+
+# non-dict objects that CARRY the required keys of the argument they are given for (req): things
+# that dict() would convert, that answer `key in x`, or that look like a dict in some other way
+NONDICT_REQ = {
+    "pairs": lambda g: list(g.items()),
+    "tpairs": lambda g: tuple(g.items()),
+    "lpairs": lambda g: [list(kv) for kv in g.items()],
+    "items": lambda g: g.items(),
+    "mproxy": lambda g: types.MappingProxyType(g),
+    "userdict": lambda g: collections.UserDict(g),
+    "chainmap": lambda g: collections.ChainMap(g),
+    "duck": lambda g: KeysAndGetitem(g),
+    "keyset": lambda g: set(g),
+    "keylist": lambda g: list(g),
+    "keystr": lambda g: " ".join(g),
+    "frozenset": lambda g: frozenset(g),
+    "json": lambda g: json.dumps(g),
+    "bytes": lambda g: b"src href name content",
+    "float": lambda g: 1.5,
+    "true": lambda g: True,
+    "ntuple": lambda g: Pair("a.js", "a.css"),
+    "tag": lambda g: Tag("script", **{k: "v" for k in g}),
+    "attrs": lambda g: Tag("link", **{k: "v" for k in g}).attrs.items(),
+    "type": lambda g: dict,
+}
+
+
+class DictSub(dict):
+    """a user subclass of dict IS a dict"""
 
 
 def rand_keys(rng, req: list[str]) -> list[str]:
@@ -324,8 +922,11 @@ def rand_keys(rng, req: list[str]) -> list[str]:
 
 
 def rand_item(rng, req):
-    if rng.random() < 0.1:
+    r = rng.random()
+    if r < 0.07:
         return ("nd", rng.choice(sorted(NONDICT)))
+    if r < 0.14:
+        return ("nd", "+" + rng.choice(sorted(NONDICT_REQ)))
     return ("d", rand_keys(rng, req))
 
 
@@ -348,27 +949,43 @@ def rand_src(rng):
     if r < 0.3:
         return ("none",)
     if r < 0.42:
-        return ("nd", rng.choice(["str", "int", "list", "pair"]))
+        return ("nd", rng.choice(["str", "int", "list", "pair", "mproxy", "userdict", "pairs", "duck", "keyset"]))
     keys = [k for k in ["href", "subdir", "package", "x"] if rng.random() < 0.4]
     rng.shuffle(keys)
     return ("dict", keys)
 
 
 def mat_dict(keys):
-    return {k: "v-" + k for k in keys}
+    """a dict with these keys; which kind of dict (plain / OrderedDict / defaultdict / user subclass)
+    is a function of the keys"""
+    d = {k: "v-" + k for k in keys}
+    pick = (sum(map(len, keys)) + 3 * len(keys)) % 7
+    if pick == 1:
+        return collections.OrderedDict(d)
+    if pick == 3:
+        dd = collections.defaultdict(str)
+        dd.update(d)
+        return dd
+    if pick == 5:
+        return DictSub(d)
+    return d
 
 
-def mat_item(it):
-    return mat_dict(it[1]) if it[0] == "d" else NONDICT[it[1]]
+def mat_item(it, req=()):
+    if it[0] == "d":
+        return mat_dict(it[1])
+    if it[1].startswith("+"):
+        return NONDICT_REQ[it[1][1:]]({k: "v-" + k for k in req})
+    return NONDICT[it[1]]
 
 
-def mat_arg(a):
+def mat_arg(a, req=()):
     if a[0] == "none":
         return None
     if a[0] == "dict":
         return mat_dict(a[1])
     if a[0] == "iter":
-        l = [mat_item(x) for x in a[2]]
+        l = [mat_item(x, req) for x in a[2]]
         return tuple(l) if a[1] == "tuple" else l
     if a[0] == "str":
         return a[1]
@@ -379,7 +996,10 @@ def mat_src(s):
     if s[0] == "none":
         return None
     if s[0] == "nd":
-        return {"str": "href", "int": 3, "list": ["href"], "pair": (("href", "x"),)}[s[1]]
+        good = {"href": "u", "subdir": "d"}
+        return {"str": "href", "int": 3, "list": ["href"], "pair": (("href", "x"),),
+                "mproxy": types.MappingProxyType(good), "userdict": collections.UserDict(good),
+                "pairs": list(good.items()), "duck": KeysAndGetitem(good), "keyset": set(good)}[s[1]]
     return mat_dict(s[1])
 
 
@@ -416,10 +1036,15 @@ def args_sx(c):
                 arg_sx(c["stylesheet"]), arg_sx(c["meta"])]]
 
 
-def construct(c):
-    return HTMLDependency(c["name"], c["version"], source=mat_src(c["source"]),
-                          script=mat_arg(c["script"]), stylesheet=mat_arg(c["stylesheet"]),
-                          meta=mat_arg(c["meta"]))
+REQ = {"script": ["src"], "stylesheet": ["href"], "meta": ["name", "content"]}
+
+
+def mat_args(c) -> dict:
+    return {"source": mat_src(c["source"]), **{k: mat_arg(c[k], REQ[k]) for k in REQ}}
+
+
+def construct(c, args=None):
+    return HTMLDependency(c["name"], c["version"], **(mat_args(c) if args is None else args))
 
 
 def obj_canon(d) -> list:
@@ -487,12 +1112,23 @@ def check_validation(ctx: Ctx, cases: list[dict]) -> None:
         quirk = any(c[k] == ("str", "") for k in ("script", "stylesheet", "meta"))
         ctx.count(c, not wf or c["stylesheet"][0] != "none",
                   "constructor: " + ("well-formed" if wf else "malformed") + (" (empty str argument)" if quirk else ""))
-        r = safe_call(lambda: construct(c))
+        args = mat_args(c)
+        r = safe_call(lambda: construct(c, args))
         iv = ("ok", obj_canon(r[1])) if r[0] == "ok" else r
         if (iv[0] == "ok") != wf:
             ctx.violation("HTMLDependency(...) " + ("rejects well-formed arguments" if wf else
                           "accepts malformed arguments (non-dict source/item, source without href/subdir, "
                           "or item missing a required key)"), c, {"impl_output": iv, "expected": "accepted" if wf else "rejected"})
+        else:
+            # the same definition a second time - from the very same argument objects, then from
+            # fresh equal ones: accepted / rejected alike, with equal results (a definition is judged
+            # on its own: nothing may be left behind by, or in the arguments of, an earlier construction)
+            for how, a2 in (("the same argument objects", args), ("equal arguments", None)):
+                r2 = safe_call(lambda: construct(c, a2))
+                iv2 = ("ok", obj_canon(r2[1])) if r2[0] == "ok" else r2
+                if iv2 != iv:
+                    ctx.violation(f"HTMLDependency(...) constructed a second time from {how} gives another result",
+                                  c, {"impl_output": iv2, "expected": iv})
         if isinstance(m, tuple):
             disagreements.append({"case": c, "impl_output": iv, "model_output": ("!", m[1])})
             continue
@@ -519,8 +1155,9 @@ def check_single_vs_list(ctx: Ctx, rng, n: int) -> None:
         which = rng.choice(["script", "stylesheet", "meta"])
         req = {"script": ["src"], "stylesheet": ["href"], "meta": ["name", "content"]}[which]
         it = rand_item(rng, req)
-        if it[0] == "nd" and it[1] in ("list", "pair", "none"):
-            # a bare list IS the list form and None the absent form; not a single item
+        if it[0] == "nd" and it[1] not in ("str", "int"):
+            # a bare list IS the list form and None the absent form; not a single item (the other
+            # non-dict kinds are judged by the validation oracle)
             continue
         base = {"name": rng.choice(NAMES), "version": rng.choice(VERSIONS),
                 "source": ("dict", ["subdir", "package"]),
@@ -547,11 +1184,21 @@ def check_single_vs_list(ctx: Ctx, rng, n: int) -> None:
 
 
 # ------------------------------------------------------------------------------------
+def in_model_range(a: str, b: str) -> bool:
+    """the extracted model computes with native integers (63 bits) and parses a version string in
+    quadratic time: numbers beyond 2**62 and strings of tens of thousands of characters go to the
+    oracle only"""
+    return len(a) + len(b) < 12000 and all(len(x.lstrip("0")) <= 18 for x in (a + "." + b).split("."))
+
+
 def check_versions(ctx: Ctx, pairs: list[tuple[str, str]]) -> None:
-    model = run_model([[3, S(a), S(b)] for a, b in pairs], driver="c10")
+    inm = [in_model_range(a, b) for a, b in pairs]
+    mres = iter(run_model([[3, S(a), S(b)] for (a, b), ok in zip(pairs, inm) if ok], driver="c10"))
     bad = []
-    for (a, b), m in zip(pairs, model):
-        ctx.count(("ver", a, b), a != b, "version pair")
+    for (a, b), ok in zip(pairs, inm):
+        m = next(mres) if ok else None
+        ctx.count(("ver", a if len(a) < 400 else [a[:20], len(a), a[-20:]], b if len(b) < 400 else [b[:20], len(b), b[-20:]]),
+                  a != b, "version pair" if ok else "version pair (oracle only: beyond the model's integer range / very long)")
         va, vb = Version(a), Version(b)
         got = [0 if va < vb else 2 if va > vb else 1, list(va.release), list(vb.release), 1 if va > vb else 0]
         if va == vb and not (va <= vb and va >= vb):
@@ -560,12 +1207,121 @@ def check_versions(ctx: Ctx, pairs: list[tuple[str, str]]) -> None:
         if got[0] != want or got[1] != release(a):
             ctx.violation("Version ordering of dotted release numbers is not numeric component-wise "
                           "ordering (modulo trailing zeros)", [a, b], {"impl_output": got, "expected": want})
-        if isinstance(m, tuple) or m != got:
+        if ok and (isinstance(m, tuple) or m != got):
             bad.append({"case": [a, b], "impl_output": got, "model_output": m})
-    ctx.corr_cases += len(pairs)
+    ctx.corr_cases += sum(inm)
     ctx.obligation(f"correspondence ver_cmp / parse_ver vs packaging.version.Version ({len(pairs)} pairs)", not bad)
     if bad:
         ctx.extra["disagree_versions"] = bad[:3]
+
+
+# ------------------------------------------------------------------------------------
+# TWO FEATURES TOGETHER: JSX components (which bring dependencies of their own: react, react-dom)
+# inside ordinary tags, next to user dependencies of the same names, also built in a with-block.
+# What a component expands to is C20's subject; here: whatever tree tagify() gives, the
+# dependencies reported for the original are the resolved document-order collection of that tree.
+# ------------------------------------------------------------------------------------
+def live_walk(x) -> list:
+    """document-order collection over live objects (transcribed from the statement)"""
+    out = []
+    for k in (x.children if isinstance(x, Tag) else x):
+        if isinstance(k, HTMLDependency):
+            out.append(k)
+        elif isinstance(k, Tag):
+            out += live_walk(k)
+    return out
+
+
+def live_key(d) -> list:
+    return [d.name, [int(v) for v in d.version.release], [str(s_.get("src")) for s_ in d.script]]
+
+
+def live_resolve(ds: list) -> list:
+    keys = [live_key(d) for d in ds]
+    picked = spec_resolve(list(range(len(ds))), [(k[0], ".".join(map(str, k[1])), 0) for k in keys])
+    return [keys[i] for i in picked]
+
+
+def check_jsx_mix(ctx: Ctx, rng, n: int) -> None:
+    try:
+        from htmltools._jsx import jsx_tag_create
+    except Exception:       # the (private, experimental) JSX module is not there: nothing to mix
+        return
+    Comp = jsx_tag_create("Comp")
+    for _ in range(n):
+        vers = [rng.choice(["17.0.2", "17.0.2.0", "17.0.10", "17.0.1", "2", "18"]) for _ in range(3)]
+        plan = {"versions": vers, "shape": rng.randrange(6), "with": rng.random() < 0.4, "observe": rng.choice(["render", "doc", "json"])}
+        ctx.count(("jsx", plan), True, "jsx mix")
+
+        def make():
+            d = [HTMLDependency("react", vers[0], script={"src": "mine0.js"}),
+                 HTMLDependency("react-dom", vers[1], script={"src": "mine1.js"}),
+                 HTMLDependency("other", vers[2], script={"src": "mine2.js"})]
+            sh = plan["shape"]
+            comp = Comp(Tag("span", d[2], "t"), d[0]) if sh % 2 else Comp(d[1], Tag("b", Comp(d[2])))
+            kids = [[d[0], comp, d[1]], [comp, d[0], Tag("p", d[1])], [Tag("div", comp, d[1]), d[0]],
+                    [d[1], Tag("div", Tag("span", comp)), comp], [comp], [d[2], (comp, [d[0]])]][sh]
+            if plan["with"]:
+                return assemble({"build": "with", "container": "tag", "name": "div", "split": 0}, kids)
+            return Tag("div", *kids)
+
+        want = safe_call(lambda: live_resolve(live_walk(make().tagify())))
+        if plan["observe"] == "render":
+            got = safe_call(lambda: [live_key(d) for d in make().render()["dependencies"]])
+        elif plan["observe"] == "doc":
+            got = safe_call(lambda: [live_key(d) for d in HTMLDocument(make()).render(lib_prefix=None)["dependencies"]])
+        else:
+            def via_json():
+                text = in_json_mode(lambda: str(make()))
+                out = []
+                for t in JSON_DEP_RE.findall(text):
+                    j = json.loads(t)
+                    out.append([j["name"], release(j["version"]), [str(s_.get("src")) for s_ in j["script"]]])
+                return out
+            got = safe_call(via_json)
+        if want[0] == "ok" and got != want:
+            ctx.violation("the dependencies reported for a tree holding JSX components are not the resolved document-order "
+                          "collection of the tree it expands to", plan, {"impl_output": got, "expected": want})
+
+
+def check_fresh_objects(ctx: Ctx) -> None:
+    """STATE SHARED BETWEEN OBJECTS: two objects of every class in one process; the second is not
+    influenced by what was done to the first"""
+    probes = []
+    dep = HTMLDependency("a", "1.0", script={"src": "x.js"})
+    t1 = Tag("div")
+    t1.append(dep)
+    probes.append(("a second Tag() has the first one's dependencies", safe_call(lambda: ids_len(Tag("div").get_dependencies()))))
+    l1 = TagList()
+    l1.append(dep)
+    l1 += [dep]
+    probes.append(("a second TagList() has the first one's dependencies", safe_call(lambda: ids_len(TagList().get_dependencies(dedup=False)))))
+    d1 = HTMLDocument()
+    d1.append(Tag("div", dep))
+    safe_call(lambda: d1.render())
+    probes.append(("a second HTMLDocument() reports the first one's dependencies",
+                   safe_call(lambda: ids_len(HTMLDocument().render()["dependencies"]))))
+    h1 = HTMLTextDocument("<html><head>@@</head></html>", deps=[dep], deps_replace_pattern="@@")
+    safe_call(lambda: h1.render())
+    probes.append(("a second HTMLTextDocument() reports the first one's dependencies",
+                   safe_call(lambda: ids_len(HTMLTextDocument("<html><head>@@</head></html>", deps_replace_pattern="@@").render()["dependencies"]))))
+    e1 = HTMLDependency("e", "1")
+    for attr in ("script", "stylesheet", "meta"):
+        try:
+            getattr(e1, attr).append({"src": "s", "href": "h", "name": "n", "content": "c"})
+        except Exception:
+            pass
+    e2 = HTMLDependency("f", "1")
+    probes.append(("a second HTMLDependency() constructed with defaults has the first one's items",
+                   safe_call(lambda: len(list(e2.script)) + len(list(e2.stylesheet)) + len(list(e2.meta)))))
+    for what, got in probes:
+        ctx.count(("fresh", what), True, "fresh objects")
+        if got != ("ok", 0):
+            ctx.violation("state shared between objects: " + what, what, {"impl_output": got, "expected": ("ok", 0)})
+
+
+def ids_len(lst) -> int:
+    return len(list(lst))
 
 
 def coqchk(ctx: Ctx) -> None:
@@ -608,7 +1364,7 @@ def node_from_json(x):
 
 
 def untuple_case(c: dict) -> dict:
-    return {"deps": [tuple(d) for d in c["deps"]], "forest": [node_from_json(x) for x in c["forest"]],
+    return {"deps": [(d[0], d[1], d[2]) for d in c["deps"]], "forest": [node_from_json(x) for x in c["forest"]],
             "mode": c["mode"], "dedup": c["dedup"]}
 
 
@@ -626,7 +1382,24 @@ def run(ctx: Ctx) -> None:
                 "dotted strings incl. padded/zero-prefixed variants of each other. Constructor: random argument "
                 "shapes (None / dict / list / tuple / str / int; items dict or non-dict; required keys dropped with "
                 "p=0.14), half of them with at most one bad argument; non-trivial when malformed or a stylesheet "
-                "is given. distinct = distinct canonical inputs.")
+                "is given. distinct = distinct canonical inputs. "
+                "SIZES: a few big forests with 7..300 placements (just below / at / above 8, 16, 32, 64, 128, 256; 300) "
+                "flat, as table rows, split over a TagList and a table, in sibling groups, along chains of 7..70 nested "
+                "tags or list/tuple/TagList wrappers, over few names / n names / n versions of one name / versions of n "
+                "components, names and versions of > 300, > 5000, > 70000 characters differing in the last character; the "
+                "deciding placement is the last one; each through get_dependencies(dedup on/off), render() and a route. "
+                "ROUTES (oracle): forests assembled by constructor / nested lists / append / extend / insert / + / reflected + "
+                "/ += / with-block / tags.<name>() / attribute dicts between children, then copy / deepcopy / tagify, observed "
+                "by get_dependencies (keyword, positional, default), render, HTMLDocument (children / TagList / lone html or "
+                "body tag with dependencies before, after and inside; lang/class_/style; lib_prefix None, '', nested; "
+                "include_version off; append; copy), save_html (libdir, include_version), str/repr/_repr_html_ in json "
+                "dependency mode, HTMLTextDocument on that text and with deps= and a pattern of regex metacharacters; equal "
+                "sub-trees may be one Tag object in two parents; tagifiable objects that are also self-rendering; JSX "
+                "components next to user dependencies named react / react-dom. After every forest case the same question is "
+                "asked again (the first answer modified by the caller) and the plain collection is taken. Constructor: "
+                "non-dict items that carry the required keys (pair lists, mappingproxy, UserDict, ChainMap, items(), duck-typed "
+                "mappings, key sets, ...), dict subclasses as items, lists of 7..300 items with the deciding item last, dicts of "
+                "7..300 keys with the required key last; every definition constructed twice (same argument objects, equal ones).")
     ctx.assumptions = [
         "the extracted OCaml model behaves as the Gallina model (ExtrOcamlBasic only)",
         "packaging.version.Version is modelled, not verified: only dotted release numbers (no epoch, "
@@ -645,7 +1418,7 @@ def run(ctx: Ctx) -> None:
 
     cases = []
     for _ in range(ctx.budget(5000, 60000)):
-        deps = rand_deps(rng)
+        deps = rand_deps(rng, hc=True)
         mode = rng.choice(["list", "list", "tag", "tag", "render_list", "render_tag"])
         forest = rand_kids(rng, rng.choice([1, 2, 2, 3, 4]), len(deps), custom=True)
         cases.append({"deps": deps, "forest": forest, "mode": mode,
@@ -681,6 +1454,41 @@ def run(ctx: Ctx) -> None:
                 cases.append({"deps": pool, "forest": f, "mode": mode, "dedup": dd})
     check_tree_cases(ctx, "every bracketing of fixed sequences", cases, "exhaustive-placement")
 
+    # SIZE AND DEPTH: few big forests, each through several observations (model + oracle), and
+    # through the entry-point routes (oracle)
+    bigs = big_forests(rng, ctx.quick)
+    cases, rcases = [], []
+    for deps, forest, label in bigs:
+        combos = [(rng.choice(["list", "tag"]), False), (rng.choice(["list", "tag"]), True),
+                  (rng.choice(["render_list", "render_tag"]), True)]
+        if label.startswith("long/70000"):
+            combos = combos[:2]
+        for mode, dd in combos:
+            cases.append({"deps": deps, "forest": forest, "mode": mode, "dedup": dd})
+        for _ in range(ctx.budget(1, 3)):
+            route = rand_route(rng)
+            if route["container"] == "doc" and label.startswith(("chain", "wrappers")):
+                route = rand_route(rng, "tag")
+            rcases.append({"deps": deps, "forest": forest, "route": route})
+    check_tree_cases(ctx, "big forests (sizes and depths around 8..300, long names and versions)", cases, "big")
+    check_routes(ctx, rcases, "big")
+
+    # ENTRY POINTS: random forests through every way of building and observing
+    rcases = []
+    for _ in range(ctx.budget(2500, 30000)):
+        deps = rand_deps(rng, hc=True)
+        route = rand_route(rng)
+        if has_hc(deps) and route["observe"] in ("save", "json", "textdoc"):
+            route["observe"] = "doc"        # head content has no script file by which to recognise it in markup
+        if route["container"] == "doc" or (route["observe"] == "doc" and rng.random() < 0.3):
+            forest = rand_doc_forest(rng, len(deps))
+        else:
+            forest = rand_kids(rng, rng.choice([1, 2, 2, 3]), len(deps), custom=True)
+        rcases.append({"deps": deps, "forest": forest, "route": route})
+    check_routes(ctx, rcases, "route")
+    check_jsx_mix(ctx, rng, ctx.budget(150, 1500))
+    check_fresh_objects(ctx)
+
     # ---- B/C 2: the version order -----------------------------------------------------
     pairs = [("1.9", "1.10"), ("1.10", "1.10.0"), ("01.2", "1.2"), ("0.0.1", "0"), ("1", "1.0.0.0"),
              ("10", "9"), ("1.0.1", "1"), ("0", "0.0"), ("2", "10"), ("1.01", "1.1")]
@@ -702,6 +1510,14 @@ def run(ctx: Ctx) -> None:
         else:
             b = rand_version(rng)
         pairs.append((a, b) if rng.random() < 0.5 else (b, a))
+    # many components / long strings: the difference (or the padding) sits at the very end
+    for n in SIZES + [2500, 35000]:
+        base = "1." * (n - 1)
+        pairs += [(base + "7", base + "8"), (base + "8", base + "8.0"), (base + "08", base + "8"),
+                  (base + "1", "1." * (n - 2) + "2"), ("2" + ".0" * (n - 1), "2"), ("2" + ".0" * (n - 1) + ".1", "2")]
+    for digits in (9, 17, 33, 65, 129, 257, 300):
+        big = "9" * digits
+        pairs += [("1." + big, "1." + big[:-1] + "8"), ("1." + big, "1.1" + "0" * digits), ("0" * digits + "1", "1")]
     check_versions(ctx, pairs)
 
     # ---- B/C 3: constructor validation -------------------------------------------------
@@ -717,6 +1533,20 @@ def run(ctx: Ctx) -> None:
         {"name": "a", "version": "1", "source": ("none",), "script": ("iter", "list", [("d", ["src"]), ("nd", "int")]),
          "stylesheet": ("dict", ["rel", "href"]), "meta": ("none",)},
     ]
+    # many items / many keys: the offending item (or the required key) comes last
+    good = {"script": ("d", ["src"]), "stylesheet": ("d", ["href", "rel"]), "meta": ("d", ["content", "name"])}
+    for n in SIZES:
+        which = rng.choice(sorted(REQ))
+        bad = rng.choice([("d", ["x"]), ("d", REQ[which][1:]), ("d", []), ("nd", "int"),
+                          ("nd", "+" + rng.choice(sorted(NONDICT_REQ)))])
+        filler = [f"k{i}" for i in range(n - 1)]
+        for tail, seq_kind in ((bad, "list"), (good[which], "tuple"), (("d", filler + REQ[which]), "list"), (("d", filler), "list")):
+            c = {"name": "a", "version": "1.0", "source": ("dict", filler[:n // 2] + ["subdir"]),
+                 "script": ("none",), "stylesheet": ("none",), "meta": ("none",)}
+            c[which] = ("iter", seq_kind, [good[which]] * (n - 1) + [tail])
+            cases.append(c)
+        cases.append({"name": "a", "version": "1.0", "source": ("dict", filler), "script": ("dict", filler + ["src"]),
+                      "stylesheet": ("none",), "meta": ("none",)})
     check_validation(ctx, cases)
     check_single_vs_list(ctx, rng, ctx.budget(1500, 15000))
     # the stylesheet default is written into the caller's dict (documented quirk, follows the code)
@@ -734,7 +1564,12 @@ def replay(ctx: Ctx, path: str) -> None:
         r = json.load(f)
     print(json.dumps(r, indent=1)[:4000])
     c = r.get("case")
-    if isinstance(c, dict) and "forest" in c:
+    if isinstance(c, dict) and "route" in c:
+        ctx.rule = "replay of one entry-point case"
+        ctx.proof()
+        cc = untuple_case({**c, "mode": "route", "dedup": True})
+        check_routes(ctx, [{"deps": cc["deps"], "forest": cc["forest"], "route": c["route"]}], "replay")
+    elif isinstance(c, dict) and "forest" in c:
         ctx.rule = "replay of one forest case"
         ctx.proof()
         check_tree_cases(ctx, "replay", [untuple_case(c)], "replay")
